@@ -219,7 +219,7 @@ Qed.
 
 (* the state of a full transfer in progress (AXFR, or IXFR after the AXFR-style fallback) *)
 Definition ast (u : bool) (rdt : Z) (p tz : zone) (ser : Z) (s0 : rrset) : st :=
-  mkSt p (Some tz) rdt false ser u (Some s0) false false false.
+  mkSt p (Some tz) rdt false ser u (Some s0) false false false false.
 
 Lemma step_rs_add : forall l u rdt p tz ser s0 s, rs_ok s ->
   step l (ast u rdt p tz ser s0) s =
@@ -290,8 +290,8 @@ Proof.
 Qed.
 
 Lemma step_final_full : forall u rdt p tz ser v, ttl_ok (v_ttl v) ->
-  step true (ast u rdt p tz ser (single (soa_rr v))) (single (soa_rr v)) =
-  (mkSt (zput soakey (v_ttl v, [v_soa v]) tz) None rdt false ser u (Some (single (soa_rr v))) true false false, None).
+  step Last (ast u rdt p tz ser (single (soa_rr v))) (single (soa_rr v)) =
+  (mkSt (zput soakey (v_ttl v, [v_soa v]) tz) None rdt false ser u (Some (single (soa_rr v))) true false false false, None).
 Proof.
   intros u rdt p tz ser v Httl. unfold step, ast. cbn [done txn incremental delmode soa set_delmode negb].
   change ((s_type (single (soa_rr v)) =? tSOA) && (s_name (single (soa_rr v)) =? origin)) with true. cbv iota.
@@ -375,7 +375,8 @@ Proof.
   destruct Hh as [Hrc Hq]. rewrite Hrc. cbn [Z.eqb negb].
   rewrite (header_ok_question tAXFR w (conj Hrc Hq)).
   rewrite Hr, (group_soa_first false r0 rest Ht). cbn [map].
-  cbn -[loop single]. cbn [single s_name s_type]. rewrite Hn, Ht. cbn -[loop single].
+  cbn -[loopT single]. cbn [single s_name s_type]. rewrite Hn, Ht. cbn -[loopT single].
+  rewrite (loopT_nosig _ _ (w_tsig w)) by reflexivity.
   apply after_tcp. reflexivity.
 Qed.
 
@@ -387,7 +388,7 @@ Theorem axfr_converges : forall v z0 ser ws,
 Proof.
   intros v z0 ser ws Hv Hch. unfold axfr_stream in Hch.
   apply chunking_first in Hch. destruct Hch as (w & ws' & a & -> & Hr & Hw & Hws & Hcat).
-  unfold inbound_xfr. rewrite init_axfr. cbn [Z.eqb tAXFR tIXFR Pos.eqb]. rewrite drive_cons.
+  unfold inbound_xfr, xfr_run. rewrite init_axfr. cbn [Z.eqb tAXFR tIXFR Pos.eqb]. rewrite drive_cons.
   rewrite (first_message_axfr z0 ser w (soa_rr v) a Hw Hr) by (split; reflexivity).
   destruct Hv as [Httl Hwf].
   destruct (cont_full ws' false (map single) a tAXFR z0 [] (match ser with Some sv => sv | None => 0 end) v
@@ -427,7 +428,7 @@ Proof.
   - cbn [map concat] in Hcat. rewrite app_nil_r in Hcat. subst a.
     cbn [map]. assert (L : forall rest, loop (ist false p tz ser (single (soa_rr v)) true false) (single r :: rest)
                              = loop (ast false tIXFR p (adds [] [r]) ser (single (soa_rr v))) rest).
-    { intros rest. cbn [loop]. rewrite step_fallback by assumption. reflexivity. }
+    { intros rest. cbn [loopT]. rewrite step_fallback by assumption. reflexivity. }
     rewrite L.
     destruct (cont_full [] true (map single) (c ++ [soa_rr v]) tIXFR p (adds [] [r]) ser v c
                 parse_single_ok parse_group_true_ok Httl Hh Hc) as [z' [n [Hn Hz']]].
@@ -435,7 +436,7 @@ Proof.
     { cbn. rewrite app_nil_r. reflexivity. }
     exists z', n. split; [exact Hn|exact Hz'].
   - destruct a as [|y a].
-    + cbn [map loop cont ist done]. inversion Hh as [|? ? Hw Hws]; subst.
+    + cbn [map loopT cont ist done]. inversion Hh as [|? ? Hw Hws]; subst.
       rewrite drive_cons. unfold from_wire. rewrite group_true.
       rewrite process_running; [|repeat split; try reflexivity; discriminate|apply Hw|apply Hw]. cbn [m_answer].
       cbn [app map concat] in Hcat.
@@ -445,7 +446,7 @@ Proof.
     + cbn [app] in Hcat. inversion Hcat; subst.
       cbn [map]. assert (L : forall rest, loop (ist false p tz ser (single (soa_rr v)) true false) (single r :: rest)
                              = loop (ast false tIXFR p (adds [] [r]) ser (single (soa_rr v))) rest).
-      { intros rest. cbn [loop]. rewrite step_fallback by assumption. reflexivity. }
+      { intros rest. cbn [loopT]. rewrite step_fallback by assumption. reflexivity. }
       rewrite L.
       destruct (cont_full (w :: ws) true (map single) a tIXFR p (adds [] [r]) ser v c
                   parse_single_ok parse_group_true_ok Httl Hh Hc) as [z' [n [Hn Hz']]].
@@ -473,7 +474,7 @@ Proof.
     rewrite rrs_of_entry_mk in Eb. destruct k as [[n ty] cv]. cbn in He.
     destruct He as (_ & _ & _ & Hds & _). destruct ds; [congruence|discriminate]. }
   inversion Hpl as [|? ? Hpr Hpc]; subst.
-  unfold inbound_xfr. rewrite init_ixfr. cbn [Z.eqb tIXFR Pos.eqb]. rewrite drive_cons.
+  unfold inbound_xfr, xfr_run. rewrite init_ixfr. cbn [Z.eqb tIXFR Pos.eqb]. rewrite drive_cons.
   rewrite (first_message_ixfr z0 ser false w (soa_rr v) a Hw Hr) by (split; reflexivity).
   cbv zeta. change (r_data (soa_rr v) mod two32) with (v_serial v).
   apply Z.eqb_neq in Hs. rewrite Hs, Hlt. cbn [andb]. rewrite after_tcp by reflexivity.
